@@ -165,6 +165,10 @@ def native_helper(kind):
     os.makedirs(outdir, exist_ok=True)
     out = os.path.join(outdir, f'{kind}-{h}')
     if os.path.exists(out):
+        try:
+            os.utime(out, None)
+        except OSError:
+            pass
         BUILD_LOG.append((f'native {kind}', 0.0, True))
         return out
     t = time.time()
@@ -185,11 +189,15 @@ def native_helper(kind):
         os.replace(tmp, out)
     finally:
         shutil.rmtree(scratch, ignore_errors=True)
-    # keep the cache small: drop older binaries of the same kind
+    # keep the cache small: drop binaries of the same kind that have not been used for hours (concurrent runs on other trees may
+    # still be using recent ones)
+    now = time.time()
     for f in os.listdir(outdir):
-        if f.startswith(kind + '-') and os.path.join(outdir, f) != out and '.tmp' not in f:
+        fp = os.path.join(outdir, f)
+        if f.startswith(kind + '-') and fp != out and '.tmp' not in f:
             try:
-                os.remove(os.path.join(outdir, f))
+                if now - os.path.getmtime(fp) > 6 * 3600:
+                    os.remove(fp)
             except OSError:
                 pass
     BUILD_LOG.append((f'native {kind}', time.time() - t, False))
@@ -271,3 +279,19 @@ def serde_case_mir():
     with open(os.path.join(d, 'src', 'lib.rs'), 'w') as fh:
         fh.write(f'#![allow(dead_code)]\n#[path = "{src}"]\npub mod case;\n')
     return mir_dump(os.path.join(d, 'Cargo.toml'), 'serde_case_oracle', (), tag='serdecase', key_hash=tree_hash(src)), ver
+
+
+# ------------------------------------------------------------------------------------------ corpus of derive-generated impls (tier B)
+def corpus_mir(features=()):
+    src = os.path.join(VERIF, 'corpus', 'lib.rs')
+    d = os.path.join(CACHE, 'corpus-crate')
+    os.makedirs(os.path.join(d, 'src'), exist_ok=True)
+    shutil.copy(src, os.path.join(d, 'src', 'lib.rs'))
+    lock = os.path.join(REPO, 'Cargo.lock')
+    if os.path.exists(lock):
+        shutil.copy(lock, os.path.join(d, 'Cargo.lock'))
+    feats = ', '.join(f'"{f}"' for f in features)
+    with open(os.path.join(d, 'Cargo.toml'), 'w') as fh:
+        fh.write(f'[package]\nname = "corpus"\nversion = "0.0.0"\nedition = "2021"\n[workspace]\n[dependencies]\n'
+                 f'ts-rs = {{ path = "{os.path.join(REPO, "ts-rs")}", features = [{feats}] }}\n')
+    return mir_dump(os.path.join(d, 'Cargo.toml'), 'corpus', (), tag='corpus', key_hash=tree_hash(src, extra=repo_hash('ts-rs') + ','.join(features)))
